@@ -11,6 +11,9 @@ package corr
 //	              0 as Unmarshal leaves it   1 padding size only in the deprecated rtp.Packet.PaddingSize
 //	              2 Header.PaddingSize set and a different junk value in rtp.Packet.PaddingSize
 //	              3 junk in the deprecated Raw / PayloadOffset fields, nil vs empty CSRC swapped
+//	              4 (round 10) P bit clear and the trailing zero bytes of the payload expressed as Header.PaddingSize:
+//	                pion/rtp counts them in MarshalSize and Marshal() leaves them zero, MarshalTo writes nothing there —
+//	                an encoder that marshals into a reused scratch buffer must have cleared it (no-op without trailing zeros)
 //	            (the marshalled bytes, hence the model's input, are identical for all of them)
 //	            → `nil`                                         EncodeFec returned nil
 //	            → `fecs n=<k>` then k × `fec ssrc= pt= seq= ts= m= x= p= cc= payload=<hex>`
@@ -114,6 +117,11 @@ func c14Packet(r *Rng, sh c14Shape, seq uint16, ts, ssrc uint32) []byte {
 		}
 	}
 	p.Payload = c14Bytes(r, r.Range(sh.payMin, sh.payMax))
+	if len(p.Payload) > 0 && r.Chance(1, 5) { // trailing zero bytes (silence, zero-filled tails): what `var` digit 4 re-expresses
+		for z := r.Range(1, min(len(p.Payload), 16)); z > 0; z-- {
+			p.Payload[len(p.Payload)-z] = 0
+		}
+	}
 	if sh.padMax > 0 && r.Chance(1, 3) {
 		p.Padding = true
 		p.Header.PaddingSize = byte(r.Range(1, sh.padMax))
@@ -559,6 +567,17 @@ func c14ApplyVariants(ps []rtp.Packet, vs string) bool {
 					p.CSRC = nil
 				}
 			}
+		case '4':
+			if !p.Header.Padding && p.Header.PaddingSize == 0 && p.PaddingSize == 0 { //nolint:staticcheck
+				z := 0
+				for z < len(p.Payload) && z < 255 && p.Payload[len(p.Payload)-1-z] == 0 {
+					z++
+				}
+				if z > 0 {
+					p.Payload = p.Payload[:len(p.Payload)-z]
+					p.Header.PaddingSize = byte(z)
+				}
+			}
 		default:
 			return false
 		}
@@ -584,7 +603,7 @@ func c14DrawVariants(r *Rng, n int) string {
 		case 1:
 			b[i] = '1'
 		default:
-			b[i] = byte('0' + r.Intn(4))
+			b[i] = byte('0' + r.Intn(5))
 		}
 	}
 	return " var=" + string(b)
